@@ -83,7 +83,7 @@ pub fn family(thorough: bool) -> Vec<(String, Vec<RuleSpec>)> {
     let pairs: Vec<(Sel, Sel)> = if thorough {
         let mut p = vec![];
         for a in [Sel::Empty, Sel::We, Sel::MoFr, Sel::Jun, Sel::NovFeb, Sel::Week24, Sel::Y2024, Sel::JunWe] {
-            for b in [Sel::Empty, Sel::We, Sel::SaTu, Sel::TuWe, Sel::JunAug, Sel::Y2024We, Sel::JulFrTh, Sel::Jun12, Sel::Ph] {
+            for b in [Sel::Empty, Sel::We, Sel::SaTu, Sel::TuWe, Sel::JunAug, Sel::Y2024We, Sel::JulFrTh, Sel::Jun12, Sel::Ph, Sel::MoWe, Sel::FrMo, Sel::JanJun] {
                 p.push((a, b));
             }
         }
@@ -93,6 +93,7 @@ pub fn family(thorough: bool) -> Vec<(String, Vec<RuleSpec>)> {
             (Sel::Empty, Sel::Empty), (Sel::Empty, Sel::We), (Sel::MoFr, Sel::We), (Sel::We, Sel::MoFr), (Sel::Jun, Sel::Empty), (Sel::Empty, Sel::JulFrTh), (Sel::Jun, Sel::JunWe),
             (Sel::NovFeb, Sel::SaTu), (Sel::Y2024, Sel::Week24), (Sel::We, Sel::Ph), (Sel::MoFr, Sel::Jun12), (Sel::Week24, Sel::TuWe), (Sel::WeSu, Sel::MoTu), (Sel::MoTu, Sel::TuWe),
             (Sel::Week40To52, Sel::Week50To53), (Sel::NovDec, Sel::Dec), (Sel::SaSu, Sel::Su), (Sel::Y2024To9999, Sel::Y1900To2024),
+            (Sel::We, Sel::MoWe), (Sel::MoWe, Sel::FrMo), (Sel::Jun, Sel::JanJun), (Sel::FrMo, Sel::We),
         ]
     };
     for op in OPS {
